@@ -11,6 +11,33 @@ from oracles.carving import chi2_stat
 TOL = 1e-9
 
 
+def outlier_ok(x: pd.Series, kind: str, thresh: float) -> bool:
+    """Reference of the optional outlier pre-filters: share of rows with |z| > 3 (sample standard deviation), or of
+    rows outside [q1 - 1.5 iqr, q3 + 1.5 iqr] (missing values count as outside), must stay below the threshold."""
+    v = np.asarray(x, dtype=float)
+    ok = ~np.isnan(v)
+    n = len(v)
+    if kind == "zscore":
+        vals = v[ok]
+        if len(vals) < 2:
+            return True
+        mean = vals.sum() / len(vals)
+        std = math.sqrt(((vals - mean) ** 2).sum() / (len(vals) - 1))
+        if std == 0:
+            return True
+        far = int((np.abs((vals - mean) / std) > 3).sum())
+        return far / n < thresh
+    if kind == "iqr":
+        vals = np.sort(v[ok])
+        if len(vals) == 0:
+            return not (1.0 < thresh)
+        q1, q3 = np.quantile(vals, 0.25), np.quantile(vals, 0.75)
+        lo, hi = q1 - 1.5 * (q3 - q1), q3 + 1.5 * (q3 - q1)
+        inside = int(((vals >= lo) & (vals <= hi)).sum())
+        return (n - inside) / n < thresh
+    return True
+
+
 def prefilter_ok(x: pd.Series, thresh_nan=0.999, thresh_mode=0.999):
     pct_nan = float(x.isna().mean())
     if not pct_nan < thresh_nan:
@@ -91,6 +118,19 @@ def abs_corr(a: pd.Series, b: pd.Series, method: str):
     return abs(float(np.corrcoef(u, v)[0, 1]))
 
 
+def close(a, b, rel=1e-9):
+    """Equal up to rounding; infinite statistics (Kruskal-Wallis of a constant feature) compare exactly."""
+    if a == b:
+        return True
+    if math.isinf(a) or math.isinf(b) or math.isnan(a) or math.isnan(b):
+        return False
+    return abs(a - b) <= rel * max(1.0, abs(a), abs(b))
+
+
+def ge_close(a, b):
+    return a >= b or close(a, b)
+
+
 def validity(returned, features, measure, assoc, n_best, thresh_corr, out, tag):
     """C14's validity predicate for the features of one type.
     measure: feature -> recomputed measure (nan = undefined); assoc(f, g) -> association or nan."""
@@ -109,6 +149,8 @@ def validity(returned, features, measure, assoc, n_best, thresh_corr, out, tag):
         return
 
     def tol(a, b):
+        if math.isinf(a) or math.isinf(b):
+            return 0.0  # infinite statistics (Kruskal-Wallis of a constant feature with missing values) compare exactly
         return TOL * max(1.0, abs(a), abs(b))
 
     for a, b in zip(returned, returned[1:]):
